@@ -36,6 +36,7 @@ static void beforeRemove(H::Element *e, void *)
 static std::string dump(H &h)
 {
     std::string s = "n=" + std::to_string(h.size());
+    std::string pf;
     bool ps = true;
     for (size_t i = 0; i < h.vector_.size(); ++i)
     {
@@ -44,8 +45,10 @@ static std::string dump(H &h)
         s += " " + (it == idOf.end() ? std::string("?") : std::to_string(it->second)) + ":" + std::to_string(e->data);
         if (e->position != i)
             ps = false;
+        pf += (i ? "," : "") + std::to_string(e->position);   // the position FIELD, compared with the model's table
     }
     s += ps ? " ps=1" : " ps=0";
+    s += " pf=" + pf;
     return s;
 }
 
@@ -62,6 +65,10 @@ int main()
         cmp = [](long a, long b) { return a / 1024 > b / 1024; };
     else if (hdr.size() == 2 && hdr[0] == "heap" && hdr[1] == "cmp=div4")
         cmp = [](long a, long b) { return a / 4096 < b / 4096; };
+    else if (hdr.size() == 2 && hdr[0] == "heap" && hdr[1] == "cmp=tie")
+        cmp = [](long, long) { return false; };   // everything equivalent: a strict weak order with one class
+    else if (hdr.size() == 2 && hdr[0] == "heap" && hdr[1] == "cmp=mod7")
+        cmp = [](long a, long b) { return (a / 1024) % 7 < (b / 1024) % 7; };
     else
     {
         std::cout << "bad-header\n";
@@ -78,7 +85,14 @@ int main()
         events.clear();
         return s;
     };
-    auto fin = [&](const std::string &res) { std::cout << res << " | " << dump(heap) << "\n"; };
+    // callbacks fired by an operation whose result line does not list them (pop, update, rebuild, buildFrom, sort, clear,
+    // top) are reported as `stray=` after the dump; the model never fires one there
+    auto fin = [&](const std::string &res) {
+        std::cout << res << " | " << dump(heap);
+        if (!events.empty())
+            std::cout << " stray=" << evs();
+        std::cout << "\n";
+    };
     auto kill = [&](H::Element *e) {
         handles[idOf.at(e)] = nullptr;
         idOf.erase(e);
